@@ -3,6 +3,9 @@
 (compiles, unit tests pass, demo fails with the change and passes without) and store it as /verif/seeded/<PROPERTY>-<x>/."""
 import os, sys, subprocess, shutil, json, glob, time
 pid, out, x = sys.argv[1], sys.argv[2], sys.argv[3]
+# "A:C" = take patchA/demoA from the output directory, store as seeded/<ID>-C (second round of seeding)
+store = x.split(":")[1] if ":" in x else x
+x = x.split(":")[0]
 needs = " ".join(sys.argv[4:])
 patch = os.path.join(out, "patch%s.diff" % x)
 demos = glob.glob(os.path.join(out, "demo%s.*" % x))
@@ -33,14 +36,17 @@ try:
     r = sh("python3 /tmp/vptools/build_tree.py %s %s" % (wt, bd)); assert r.returncode == 0
     rc0, o0 = rundemo(); log["demo_without_patch_rc"] = rc0
     assert rc0 == 0, "demo does not pass on the unchanged tree: " + o0
-    dst = os.path.join("/verif/seeded", "%s-%s" % (pid, x))
+    dst = os.path.join("/verif/seeded", "%s-%s" % (pid, store))
     os.makedirs(dst, exist_ok=True)
     shutil.copy(patch, os.path.join(dst, "patch.diff"))
     shutil.copy(demo, os.path.join(dst, os.path.basename(demo)))
+    for extra in glob.glob(os.path.join(out, "*.py")):
+        if os.path.basename(extra) not in ("demoA.py", "demoB.py"):
+            shutil.copy(extra, os.path.join(dst, os.path.basename(extra)))
     if os.path.exists(os.path.join(out, "notes.md")):
         shutil.copy(os.path.join(out, "notes.md"), os.path.join(dst, "notes.md"))
     head = sh("git -C /repo rev-parse --short HEAD").stdout.strip()
-    json.dump({"property": pid, "variant": x, "needs_to_manifest": needs, "base_commit": head,
+    json.dump({"property": pid, "variant": store, "needs_to_manifest": needs, "base_commit": head,
                "confirmed": log, "what_i_ran": ["git worktree add (scratch) + git apply patch.diff", "python3 /tmp/vptools/build_tree.py (full rebuild)",
                 "test-btcdeb from the worktree root: " + log["tests_with_patch"], "demo with patch: exit %d" % rc1, "demo without patch: exit %d" % rc0],
                "demo_output_with_patch_tail": o1[-600:], "detected_by": []}, open(os.path.join(dst, "meta.json"), "w"), indent=1)
